@@ -25,6 +25,10 @@ func (s *solo) checkPeerQ(q *peerQ) {
 	if q.peerResult != nil || q.fwdArrived {
 		// produced by a capability of the peer (the Conn looped the call back)
 		pr := q.peerResult
+		if m.RetKind == "exception" && (s.closed || (q.finSent && q.finT < q.retT) || s.pipeTargetUnavailable(q)) {
+			// canceled by the peer itself before the Return
+			return
+		}
 		switch {
 		case pr == nil:
 			s.violate("C06/return-content", fmt.Sprintf("Return for looped-back call uid=%x before the peer capability answered", q.uid), s.log.Tail(30))
@@ -48,7 +52,15 @@ func (s *solo) checkPeerQ(q *peerQ) {
 		}
 		legit := q.mustFail || s.closed || (q.finSent && q.finT < q.retT) || (q.pipeOn != nil && s.pipeTargetUnavailable(q))
 		if !legit {
-			s.violate("C06/call-not-delivered", fmt.Sprintf("call uid=%x (%s -> %s) was answered %q without reaching the target capability", q.uid, q.class, q.target.RefKey(), m.ExcReason), s.log.Tail(40))
+			sig := "C06/call-not-delivered"
+			if strings.Contains(m.ExcReason, "call on null client") && s.arrivedWhileReturning(q) {
+				// the call was dispatched between the end of the target's
+				// implementation and the moment its Return marked the
+				// results ready: answer.Return has already stripped the cap
+				// table the pipeline caller reads
+				sig = "C06/call-not-delivered/null-client-while-returning"
+			}
+			s.violate(sig, fmt.Sprintf("call uid=%x (%s -> %s) was answered %q without reaching the target capability", q.uid, q.class, q.target.RefKey(), m.ExcReason), s.log.Tail(40))
 		}
 		s.count("peer_calls_failed_undelivered", 1)
 		return
@@ -621,4 +633,33 @@ func (s *solo) pipeParentNoCap(ac *appCall) bool {
 		return true
 	}
 	return t.pa.ret.Payload.SlotDesc(ac.path) == nil
+}
+
+// arrivedWhileReturning: q was pipelined on a question whose implementation
+// had already returned successfully but whose Return had not been put on the
+// wire when the Conn received q.
+func (s *solo) arrivedWhileReturning(q *peerQ) bool {
+	t := q.pipeOn
+	if t == nil {
+		return false
+	}
+	o := s.w.Obs(t.uid)
+	if o == nil || !o.Done || o.Err != "" {
+		return false
+	}
+	var recvT, retT int64
+	for _, e := range s.log.Snapshot() {
+		if e.Msg == nil || e.Who != "C" {
+			continue
+		}
+		if e.Kind == rpcbench.EvRecv && e.Msg.Which == "call" && e.Msg.Payload != nil && e.Msg.Payload.UID == q.uid && recvT == 0 {
+			recvT = e.T
+		}
+		if e.Kind == rpcbench.EvSendEnd && e.Msg.Which == "return" && e.Msg.ID == t.id && e.T > t.sentT && retT == 0 {
+			retT = e.T
+		}
+	}
+	// dispatch happens after delivery; the window closes when the Return
+	// has been sent (results ready is set just before)
+	return recvT != 0 && (retT == 0 || recvT < retT)
 }
